@@ -217,6 +217,30 @@ def twin_c13_edge(k):
     pairs = [(len(pre), len(bpre))] + [(len(pre) + 1 + i, len(bpre) + 1 + i) for i in range(len(post))]
     return {"a": a, "b": b, "pairs": pairs, "keys": None, "events": True, "ret": True, "nontrivial": len(post)}
 
+def twin_c13_other(k):
+    """C13 with a second parser around: instance 0 collects a history (AF list and candidates, scalars, texts), then ANOTHER
+    instance is created, fed or not, and cleared; then instance 0 is cleared and must be indistinguishable from a fresh parser
+    with the same settings — whatever happened to its neighbour (a 'dirty' flag kept per process instead of per parser shows)"""
+    ext = k % 2
+    pre = ["new"] + ALL_CBS + ["c 1 0 1", "x %d" % ext]
+    hist = [P(0x3ABC, 0x0008 | (5 << 5) | (1 << 10), 0x0A14, 0x4142), P(0x3ABC, 0x0009 | (5 << 5) | (1 << 10), 0x0A14, 0x4344),
+            P(0x3ABC, 0x0008 | (5 << 5), 0x1E28, 0x4142), P(0x3ABC, 0x1000 | (5 << 5), 0x00E0, 0), P(0x3ABC, 0x1000 | (5 << 5), 0x00E0, 0),
+            P(0x3ABC, 0x2000 | (5 << 5), 0x4142, 0x4344), P(0x3ABC, 0xA000 | (5 << 5), 0x4142, 0x4344)]
+    other = [["@ 1", "new", "clear", "@ 0"],
+             ["@ 1", "new", P(0x1111, 0x0008, 0x3246, 0x5858), "clear", "@ 0"],
+             ["@ 1", "new", "x 1", P(0x1111, 0x0008, 0x3246, 0x5858), "clear", "clear", "@ 0"],
+             ["@ 1", "new", "init", "@ 0"]][(k // 2) % 4]
+    pre = pre + hist + other
+    post = [P(0x3ABC, 0x0008 | (5 << 5), 0x1E28, 0x4142), P(0x3ABC, 0x000A | (5 << 5), 0x0A32, 0x4546), P(0x3ABC, 0x1000 | (5 << 5), 0x00E0, 0),
+            P(0x3ABC, 0x2010 | (5 << 5), 0x4142, 0x4344, 0, 1, 0, 0), P(0x3ABC, 0x000A | (5 << 5), 0x0A32, 0x4546)]
+    tr = Tracker()
+    for line in pre[:len(pre) - len(other)]: tr.feed(line)
+    a = pre + ["clear"] + post
+    bpre = ["new"] + tr.settings_ops() + tr.observer_ops()
+    b = bpre + ["q"] + post
+    pairs = [(len(pre), len(bpre))] + [(len(pre) + 1 + i, len(bpre) + 1 + i) for i in range(len(post))]
+    return {"a": a, "b": b, "pairs": pairs, "keys": None, "events": True, "ret": True, "nontrivial": len(post)}
+
 def twin_reentrant_clear(j, ext, hseed):
     """C13 / C09 with the reset made from INSIDE a callback: run A is a fresh parser, run B has a history (every value
     different from the ones that follow, so the same callbacks fire); then both receive group G — twice under the extended check —
@@ -296,10 +320,10 @@ def twin_c14(seed, n):
     return {"a": a, "b": b, "pairs": pairs, "keys": None, "events": True, "ret": False, "nontrivial": nontriv}
 
 # ---- C15 ---------------------------------------------------------------------------------
-def twin_c15(seed, n):
+def twin_c15(seed, n, only_k=None):
     g = Gen(seed, "c15")
     r = g.r
-    base = ["new"] + g.settings_block()
+    base = ["new", "qo 1"] + g.settings_block()
     slots = []
     while len(base) < n:
         x = r.random()
@@ -329,16 +353,34 @@ def twin_c15(seed, n):
             P(0x4DEF, 0x0000 | (9 << 5) | 2, 0x5E6F, 0x4546)]                                       # all of group 0 again, changed
     pairs12 = [(j, k) for j in range(12) for k in range(12) if j != k]
     for (j, k) in pairs12:
+        if only_k is not None and k != only_k: continue
         blk = ["new"] + ["r %d 1" % i for i in range(12)] + ["u 77"]
         a += blk; b += blk
         a.append("q"); b.append("ri %d" % (1000 + 100 * j + 4 * k + 1 + 2 * ((j + k) % 2)))
         a += stim; b += stim
+        a.append("q"); b.append("ri 0")
+    # late registration from inside a callback: run A has every callback registered, run B all but k, and callback j registers k
+    # while the library is in the middle of a call. From that moment on — also for the rest of the same call — k is reported
+    # exactly as in run A (checked by runner.run_twin, key "late_reg")
+    late = []
+    for (j, k) in pairs12:
+        if only_k is not None and k != only_k: continue
+        a += ["new"] + ["r %d 1" % i for i in range(12)] + ["u 77", "q"]
+        b += ["new"] + ["r %d 1" % i for i in range(12) if i != k] + ["q", "u 77", "ri %d" % (3000 + 100 * j + 4 * k)]
+        st = len(a)
+        # the group that makes k fire comes first: on a parser that knows nothing yet it makes PI, PTY and TP (and the other
+        # callbacks of its own type) fire as well, so j and k meet in one call wherever the library allows it
+        first = {5: 2, 6: 2, 9: 3, 10: 4, 11: 5}.get(k, 0)
+        seq = [stim[first]] + [x for n_, x in enumerate(stim) if n_ != first]
+        a += seq; b += seq
+        late.append((st, len(a), j, k))
         a.append("q"); b.append("ri 0")
     # registration gaps: traffic that keeps every callback busy (each value twice in a row, so that the extended check confirms it;
     # clock times one minute apart); run A has everything registered throughout, run B removes callback k for two steps in the
     # middle and puts it back. What a callback reports once it is registered in both runs again must not depend on the gap.
     for ext in (0, 1):
         for k in range(12):
+            if only_k is not None and k != only_k: continue
             blk = ["new"] + ["r %d 1" % i for i in range(12)] + ["u 5", "x %d" % ext]
             a += blk; b += blk
             for j in range(10):
@@ -369,7 +411,7 @@ def twin_c15(seed, n):
             elif w[0] == "ri": taint = taint or w[1] != "0"
         if a[i] == "new" and b[i] == "new": taint = False
     return {"a": a, "b": b, "pairs": [(i, i) for i in range(len(a)) if i >= len(base) or base[i] is not None], "keys": None,
-            "events": False, "ret": True, "nontrivial": len(slots), "common": common}
+            "events": False, "ret": True, "nontrivial": len(slots), "common": common, "late_reg": late}
 
 # ---- C09: texts and clock time are independent of the extended check -----------------------
 def twin_c09(seed, n):
